@@ -145,6 +145,15 @@ namespace Tx
 def bmem (t : Tx) : Mem := { now := t.now, cap := 1000, store := t.backend }
 def omem (t : Tx) : Mem := { now := t.now, cap := 1000, store := t.overlay }
 
+/-- `TransactionBackend.set` (unconditional form):
+`self._to_delete.discard(key); return await self._local_cache.set(key, value, expire)` -/
+def set (t : Tx) (k : Nat) (v : Val) (ttl : Option Nat) : Tx :=
+  { t with del := t.del.filter (· != k), overlay := (t.omem.rawSet k v ttl).store }
+
+/-- `TransactionBackend.delete`: `await self._local_cache.delete(key); self._to_delete.add(key)` -/
+def delete (t : Tx) (k : Nat) : Tx :=
+  { t with overlay := (t.omem.rawDelete k).1.store, del := t.del ++ [k] }
+
 /-- `TransactionBackend.scan`: the overlay's matches, then the backend's matches that are neither
 pending deletes (`_key_is_delete`) nor already yielded from the overlay (`_local_state`). -/
 def scan (name : Nat → List Char) (t : Tx) (pat : List Char) : List Nat :=
